@@ -87,6 +87,9 @@ func init() {
 			"expected anchors / links / bookmarks are recomputed from webrender's own laid-out page boxes (document.Page.VerifPageBox) and cross-checked with the generator's facts for structured documents",
 		},
 		Batch: 100,
+		// hostile documents that never finish laying out produce no drawing to judge: C01 runs the same
+		// grammar and reports CPU / heap overruns as violations
+		BudgetOutOfDomain: true,
 	})
 }
 
